@@ -87,3 +87,6 @@
 (declare-fun reMatches (String String) SLst)
 (declare-fun reSubst (String String SLst) String)
 (declare-fun strTrim (String String) String)
+(declare-fun reSplit (String String Int) SLst)
+(declare-fun tomlParseF (String) Val)
+(declare-fun tomlParseE (String) ErrV)
